@@ -87,7 +87,10 @@ type nfSlot struct {
 	grant      map[string][]string           // live listens (also "r<i>") -> what the ack granted: "t" "p" "r" "u<j>"
 	order      []string                      // … in the order they were acknowledged
 	holdCancel   string                   // the next notifications/cancelled this client writes is held, under this listen name
-	cancelParked map[string]chan struct{} // listens whose cancellation is held in the client's transport -> release channel
+	cancelParked map[string]chan struct{} // listens whose cancellation is held in the client's transport (or, unsubMode, whose clean-up is parked in the server's UnsubscribeHandler) -> release channel
+	raw          *nfHoldConn              // the client's end of the connection (`close c<i> drop` cuts it)
+	parkUnsub    string                   // the next UnsubscribeHandler call the server makes for this session parks, under this listen name
+	unsubMode    map[string]bool          // entries of cancelParked that are parked in the UnsubscribeHandler: released by `unsubdone`
 }
 
 // nfHoldTransport wraps the client's transport: a notifications/cancelled message can be held before
@@ -104,7 +107,11 @@ func (t *nfHoldTransport) Connect(ctx context.Context) (Connection, error) {
 	if err != nil {
 		return nil, err
 	}
-	return &nfHoldConn{Connection: c, w: t.w, sl: t.sl}, nil
+	hc := &nfHoldConn{Connection: c, w: t.w, sl: t.sl}
+	t.w.mu.Lock()
+	t.sl.raw = hc
+	t.w.mu.Unlock()
+	return hc, nil
 }
 
 type nfHoldConn struct {
@@ -302,7 +309,32 @@ func (w *nfWorld) newServer(capT, capP, capR string) {
 			}
 			return nil
 		},
-		UnsubscribeHandler: func(context.Context, *UnsubscribeRequest) error { return nil },
+		// Schedule point "the stream has ended, none of its deferred critical sections has run":
+		// application code called from unsubscribeListen (outside the server lock, for the LAST URI the
+		// stream was granted: the deferred calls run in reverse) parks until `unsubdone`.
+		UnsubscribeHandler: func(_ context.Context, req *UnsubscribeRequest) error {
+			var ch chan struct{}
+			w.mu.Lock()
+			for _, sl := range w.slots {
+				if sl != nil && sl.ss == req.Session && sl.parkUnsub != "" {
+					ch = make(chan struct{})
+					sl.cancelParked[sl.parkUnsub] = ch
+					sl.unsubMode[sl.parkUnsub] = true
+					sl.parkUnsub = ""
+				}
+			}
+			refuse := req.Params != nil && w.refuse[nfURIIndex(req.Params.URI)]
+			w.mu.Unlock()
+			if ch != nil {
+				<-ch
+			}
+			if refuse {
+				// the application refuses (policy u<j> refuse covers both handlers): resources/unsubscribe of a
+				// legacy session fails and the subscription stays; the clean-up of a stream ignores the error
+				return fmt.Errorf("unsubscription from %s refused", req.Params.URI)
+			}
+			return nil
+		},
 		PageSize:           1000,
 	}
 	caps := &ServerCapabilities{}
@@ -987,7 +1019,7 @@ func (w *nfWorld) apply(toks []string) (obs string) {
 		sl := &nfSlot{idx: i, sid: sid, modern: toks[3] == "modern", mask: toks[4], ids: map[string]string{},
 			rsubs: map[int]bool{}, held: map[string]*nfHeld{}, reached: map[string]bool{}, ackWant: "m",
 			ackParked: map[string]chan struct{}{}, live: map[string]bool{}, xl: map[string]context.CancelFunc{},
-			grant: map[string][]string{}, cancelParked: map[string]chan struct{}{}}
+			grant: map[string][]string{}, cancelParked: map[string]chan struct{}{}, unsubMode: map[string]bool{}}
 		w.newClient(sl)
 		ct, st := NewInMemoryTransports()
 		ss, err := w.s.Connect(context.Background(), st, nil)
@@ -1133,11 +1165,15 @@ func (w *nfWorld) apply(toks []string) (obs string) {
 	case "xend":
 		// xend c<i> <m|L<n>>: the client cancels that listen; its handler on the server ends
 		sl, ok := slot(1)
-		holdC := len(toks) == 4 && toks[3] == "hold"
+		park := len(toks) == 4 && toks[3] == "park"
+		holdC := len(toks) == 4 && (toks[3] == "hold" || park)
 		if !ok || len(toks) < 3 || len(toks) > 4 || (len(toks) == 4 && !holdC) {
 			return "bad-op"
 		}
 		name := toks[2]
+		if park && (sl == nil || !sl.grantsURI(name)) {
+			return "bad-op" // only the end of a stream that was granted a URI calls the UnsubscribeHandler
+		}
 		if name != "m" {
 			if _, err := strconv.Atoi(strings.TrimPrefix(name, "L")); err != nil || !strings.HasPrefix(name, "L") {
 				return "bad-op"
@@ -1155,7 +1191,11 @@ func (w *nfWorld) apply(toks []string) (obs string) {
 		}
 		if holdC {
 			w.mu.Lock()
-			sl.holdCancel = name
+			if park {
+				sl.parkUnsub = name
+			} else {
+				sl.holdCancel = name
+			}
 			w.mu.Unlock()
 		}
 		if name == "m" {
@@ -1169,7 +1209,11 @@ func (w *nfWorld) apply(toks []string) (obs string) {
 			w.mu.Lock()
 			parked := sl.cancelParked[name] != nil
 			sl.holdCancel = ""
+			sl.parkUnsub = ""
 			w.mu.Unlock()
+			if parked && park {
+				return w.withStray("ok unsub-held")
+			}
 			if parked {
 				return w.withStray("ok cancel-held")
 			}
@@ -1177,8 +1221,9 @@ func (w *nfWorld) apply(toks []string) (obs string) {
 		delete(sl.live, name)
 		w.xtag = sl.endedListen(name)
 		return w.withStray("ok")
-	case "canceldone":
+	case "canceldone", "unsubdone":
 		// canceldone c<i> <m|r<j>|L<n>>: the held notifications/cancelled of that listen is written
+		// unsubdone  c<i> <r<j>|L<n>>: the UnsubscribeHandler call the clean-up of that listen is parked in returns
 		sl, ok := slot(1)
 		if !ok || len(toks) != 3 {
 			return "bad-op"
@@ -1189,7 +1234,12 @@ func (w *nfWorld) apply(toks []string) (obs string) {
 		name := toks[2]
 		w.mu.Lock()
 		ch := sl.cancelParked[name]
+		if ch != nil && sl.unsubMode[name] != (toks[0] == "unsubdone") {
+			w.mu.Unlock()
+			return "bad-op"
+		}
 		delete(sl.cancelParked, name)
+		delete(sl.unsubMode, name)
 		w.mu.Unlock()
 		if ch == nil {
 			return "refused"
@@ -1201,7 +1251,8 @@ func (w *nfWorld) apply(toks []string) (obs string) {
 		return w.withStray("ok")
 	case "subscribe", "unsubscribe":
 		sl, ok := slot(1)
-		hold := len(toks) == 4 && toks[3] == "hold"
+		park := len(toks) == 4 && toks[3] == "park" && toks[0] == "unsubscribe"
+		hold := len(toks) == 4 && (toks[3] == "hold" || park)
 		if !ok || len(toks) < 3 || len(toks) > 4 || (len(toks) == 4 && !hold) {
 			return "bad-op"
 		}
@@ -1212,6 +1263,9 @@ func (w *nfWorld) apply(toks []string) (obs string) {
 		var err error
 		obs := "ok"
 		name := fmt.Sprintf("r%d", u)
+		if park && !sl.grantsURI(name) {
+			return "bad-op" // only the end of a stream that was granted a URI calls the UnsubscribeHandler
+		}
 		w.mu.Lock()
 		pa := sl.ackParked[name]
 		pc := sl.cancelParked[name]
@@ -1255,20 +1309,29 @@ func (w *nfWorld) apply(toks []string) (obs string) {
 			}
 			if hold {
 				w.mu.Lock()
-				sl.holdCancel = name
+				if park {
+					sl.parkUnsub = name
+				} else {
+					sl.holdCancel = name
+				}
 				w.mu.Unlock()
 			}
 			err = sl.cs.Unsubscribe(context.Background(), &UnsubscribeParams{URI: nfURI(u)})
 			synctest.Wait()
-			delete(sl.rsubs, u)
+			if err == nil || sl.modern {
+				delete(sl.rsubs, u)
+			}
 			held := false
 			if hold {
 				w.mu.Lock()
 				held = sl.cancelParked[name] != nil
 				sl.holdCancel = ""
+				sl.parkUnsub = ""
 				w.mu.Unlock()
 			}
-			if held {
+			if held && park {
+				obs = "ok unsub-held"
+			} else if held {
 				obs = "ok cancel-held"
 			} else if sl.modern {
 				w.xtag = sl.endedListen(name)
@@ -1282,6 +1345,40 @@ func (w *nfWorld) apply(toks []string) (obs string) {
 		sl, ok := slot(1)
 		if !ok || sl == nil || !sl.connected || len(sl.held) > 0 || len(sl.ackParked) > 0 || len(sl.cancelParked) > 0 {
 			return "refused"
+		}
+		if len(toks) == 3 && toks[2] == "drop" {
+			// the connection is cut under the client: no notifications/cancelled for its open listens, no
+			// orderly ClientSession.Close; the server reads EOF, the handlers of the open
+			// subscriptions/listen streams are cancelled by the connection, their clean-up runs, then
+			// Server.disconnect
+			w.mu.Lock()
+			raw := sl.raw
+			w.mu.Unlock()
+			if raw == nil {
+				return "refused"
+			}
+			raw.Connection.Close()
+			synctest.Wait()
+			// the server session must end by itself; if it does not (a parked handler that nothing cancels
+			// keeps the connection from becoming idle) the harness reports it instead of deadlocking
+			ended := make(chan struct{})
+			go func() { sl.ss.Wait(); close(ended) }()
+			obs := "ok"
+			select {
+			case <-ended:
+			case <-time.After(time.Hour):
+				obs = "hung"
+			}
+			for _, cancel := range sl.xl {
+				cancel()
+			}
+			sl.cs.Close()
+			synctest.Wait()
+			w.closed[sl.ss] = sl.sid
+			w.slots[sl.idx] = nil
+			return w.withStray(obs)
+		} else if len(toks) != 2 {
+			return "bad-op"
 		}
 		// the raw listens are outstanding calls of the connection: like ClientSession.Close does for the
 		// listens it opened itself, cancel them first (jsonrpc2's Close waits for outstanding calls)
@@ -1485,6 +1582,27 @@ func (w *nfWorld) cancelWindows() []string {
 	return out
 }
 
+// doneOp is the label that releases the window `c<i> <name>` of cancelWindows.
+func (w *nfWorld) doneOp(win string) string {
+	f := strings.Fields(win)
+	w.mu.Lock()
+	defer w.mu.Unlock()
+	if sl := w.slots[int(f[0][1]-'0')]; sl != nil && sl.unsubMode[f[1]] {
+		return "unsubdone " + win
+	}
+	return "canceldone " + win
+}
+
+// grantsURI reports whether the live listen of that name was granted a resource subscription.
+func (sl *nfSlot) grantsURI(name string) bool {
+	for _, g := range sl.grant[name] {
+		if strings.HasPrefix(g, "u") {
+			return true
+		}
+	}
+	return false
+}
+
 // fansOpen lists the kinds whose held fan-out is blocked in a write.
 func (w *nfWorld) fansOpen() []string {
 	w.mu.Lock()
@@ -1536,6 +1654,7 @@ func (w *nfWorld) cleanup() {
 			delete(sl.ackParked, k)
 		}
 		sl.holdCancel = ""
+		sl.parkUnsub = ""
 		for k, ch := range sl.cancelParked {
 			close(ch)
 			delete(sl.cancelParked, k)
@@ -1673,6 +1792,14 @@ func nfTag(toks []string, obs string) string {
 	case "unsubscribe", "xend":
 		if strings.HasSuffix(obs, "cancel-held") {
 			return toks[0] + "-cancel-held"
+		}
+		if strings.HasSuffix(obs, "unsub-held") {
+			return toks[0] + "-unsub-held"
+		}
+		return toks[0]
+	case "close":
+		if len(toks) == 3 {
+			return "close-" + toks[2]
 		}
 		return toks[0]
 	case "advance":
@@ -2080,7 +2207,7 @@ func (g *nfGen) body(w *nfWorld) string {
 					if g.rng.Intn(2) == 0 {
 						g.tail = append(g.tail, "tables")
 					}
-					return fmt.Sprintf("close c%d", i)
+					return fmt.Sprintf("close c%d%s", i, g.pick("", "", " drop"))
 				}
 			case r2 < 36 && len(free) > 0:
 				g.nextSid++
@@ -2100,7 +2227,7 @@ func (g *nfGen) body(w *nfWorld) string {
 		case r < 80 && len(conn) > 0:
 			i := conn[g.rng.Intn(len(conn))]
 			if len(w.slots[i].held) == 0 && len(w.slots[i].ackParked) == 0 && len(w.slots[i].cancelParked) == 0 {
-				return fmt.Sprintf("close c%d", i)
+				return fmt.Sprintf("close c%d%s", i, g.pick("", "", " drop"))
 			}
 		case r < 84 && len(conn) > 0:
 			return fmt.Sprintf("list c%d %s n", conn[g.rng.Intn(len(conn))], map[string]string{"tools": "tools", "prompts": "prompts", "resources": "resources"}[k])
@@ -2112,7 +2239,7 @@ func (g *nfGen) body(w *nfWorld) string {
 		ci := int(f[0][1] - '0')
 		switch r := g.rng.Intn(100); {
 		case r < 22:
-			return "canceldone " + f[0] + " " + f[1]
+			return w.doneOp(f[0] + " " + f[1])
 		case r < 50:
 			if strings.HasPrefix(f[1], "r") {
 				return "rupdated u" + f[1][1:]
@@ -2131,6 +2258,26 @@ func (g *nfGen) body(w *nfWorld) string {
 			}
 		case r < 72:
 			return "tables"
+		case r < 90:
+			// the same session subscribes to a URI of the ending stream again, on a further stream (a client
+			// that cancels a stream and opens a new one at once), while the old one is still unwinding
+			if sl := w.slots[ci]; sl != nil && sl.connected && sl.modern {
+				var us []string
+				for _, gr := range sl.grant[f[1]] {
+					if strings.HasPrefix(gr, "u") {
+						us = append(us, gr)
+					}
+				}
+				for _, n := range []string{"L1", "L2", "L3"} {
+					w.mu.Lock()
+					busy := sl.ackParked[n] != nil || sl.cancelParked[n] != nil
+					w.mu.Unlock()
+					if !sl.live[n] && !busy && len(us) > 0 {
+						g.tail = append(g.tail, w.doneOp(f[0]+" "+f[1]), "rupdated "+us[0], "tables")
+						return fmt.Sprintf("xlisten c%d %s - %s", ci, n, us[g.rng.Intn(len(us))])
+					}
+				}
+			}
 		}
 	}
 	// further listens of a connected 2026-07-28 session, overlapping the live ones in kinds or in a URI,
@@ -2145,8 +2292,13 @@ func (g *nfGen) body(w *nfWorld) string {
 	} else if g.focus == 9 {
 		xp = 25
 	}
-	holdC := func() string { // the cancellation of the listen that ends is held on its way
+	// the cancellation of the listen that ends is held on its way; or (a listen that was granted a URI) its
+	// clean-up on the server is parked in the application's UnsubscribeHandler
+	holdC := func(sl *nfSlot, name string) string {
 		if g.rng.Intn(10) < 3 || (g.focus == 6 && g.rng.Intn(2) == 0) {
+			if sl != nil && sl.grantsURI(name) && g.rng.Intn(2) == 0 {
+				return " park"
+			}
 			return " hold"
 		}
 		return ""
@@ -2176,9 +2328,9 @@ func (g *nfGen) body(w *nfWorld) string {
 				g.tail = append(g.tail, "tables")
 			}
 			if strings.HasPrefix(n, "r") {
-				return fmt.Sprintf("unsubscribe c%d u%s%s", i, n[1:], holdC())
+				return fmt.Sprintf("unsubscribe c%d u%s%s", i, n[1:], holdC(sl, n))
 			}
-			return fmt.Sprintf("xend c%d %s%s", i, n, holdC())
+			return fmt.Sprintf("xend c%d %s%s", i, n, holdC(sl, n))
 		}
 		var free []string
 		for _, n := range []string{"L1", "L2", "L3"} {
@@ -2275,7 +2427,7 @@ func (g *nfGen) body(w *nfWorld) string {
 				continue
 			}
 			g.tail = append(g.tail, "tables")
-			return fmt.Sprintf("close c%d", i)
+			return fmt.Sprintf("close c%d%s", i, g.pick("", "", " drop"))
 		case r < 58:
 			if len(conn) == 0 {
 				continue
@@ -2307,7 +2459,7 @@ func (g *nfGen) body(w *nfWorld) string {
 				}
 			}
 			if sl := w.slots[i]; sl.modern && sl.rsubs[u] && sl.ackParked[fmt.Sprintf("r%d", u)] == nil && sl.cancelParked[fmt.Sprintf("r%d", u)] == nil {
-				return fmt.Sprintf("unsubscribe c%d u%d%s", i, u, holdC())
+				return fmt.Sprintf("unsubscribe c%d u%d%s", i, u, holdC(sl, fmt.Sprintf("r%d", u)))
 			}
 			return fmt.Sprintf("unsubscribe c%d u%d", i, u)
 		case r < 68:
@@ -2360,7 +2512,7 @@ func (g *nfGen) body(w *nfWorld) string {
 	return changeOp()
 }
 
-const nfScriptedShapes = 27
+const nfScriptedShapes = 32
 
 // nfScripted: the shapes the property is about, placed at random offsets (so that quick runs always reach them).
 func nfScripted(rng *rand.Rand, hook string, variant int) []string {
@@ -2512,6 +2664,28 @@ func nfScripted(rng *rand.Rand, hook string, variant int) []string {
 			}
 			ops = append(ops, "list c1 "+f+" n")
 		}
+	case 27: // the clean-up of the stream ClientSession.Unsubscribe cancelled is parked in the application's UnsubscribeHandler; the session subscribes to the URI again on a further stream meanwhile
+		ops = append(ops, "connect c0 1 modern -", "subscribe c0 u1", "rupdated u1", "unsubscribe c0 u1 park", "tables", "rupdated u1", "xlisten c0 L1 - u1", "tables", "rupdated u1",
+			"unsubdone c0 r1", "tables", "rupdated u1", "list c0 read:1 n", "xend c0 L1", "rupdated u1", "tables")
+	case 28: // the same with raw streams of several URIs (the parked call is the one for the LAST URI), a second session subscribed beside, and the older stream surviving
+		ops = append(ops, "connect c0 1 modern r", "listen c0", "connect c1 2 legacy -", "subscribe c1 u0", "xlisten c0 L1 - u0 u2", "xlisten c0 L2 t u2", "xend c0 L2 park", "rupdated u2", "tables",
+			"xlisten c0 L3 - u2 u0", "rupdated u2", "unsubdone c0 L2", "tables", "rupdated u2", "rupdated u0", "xend c0 L1 park", "xend c0 L3", "rupdated u0", "unsubdone c0 L1", "tables", "rupdated u0", "rupdated u2")
+	case 29: // parked clean-up, the session closes its other streams, a burst and an update inside the window; park asked of a stream that was granted no URI
+		ops = append(ops, "connect c0 1 modern t", "listen c0", "xend c0 m park", "subscribe c0 u0", "xlisten c0 L1 t u0", "unsubscribe c0 u0 park", "change tools add", fmt.Sprintf("advance %d", d))
+		if hook == "hook1" {
+			ops = append(ops, "cbrun tools")
+		}
+		ops = append(ops, "rupdated u0", "xend c0 L1", "rupdated u0", "tables", "subscribe c0 u0", "unsubdone c0 r0", "rupdated u0", "tables")
+	case 30: // the connection is cut under a client with open streams (no cancellations, no orderly Close): everything of the session goes; a second session keeps its own
+		ops = append(ops, "connect c0 1 modern tr", "listen c0", "subscribe c0 u0", "xlisten c0 L1 p u0 u1", "connect c1 2 modern t", "listen c1", "subscribe c1 u0", "connect c2 3 legacy -", "subscribe c2 u1",
+			"tables", "close c0 drop", "tables", "rupdated u0", "rupdated u1", "change tools add", fmt.Sprintf("advance %d", d))
+		if hook == "hook1" {
+			ops = append(ops, "cbrun tools")
+		}
+		ops = append(ops, "close c2 drop", "tables", "rupdated u1", "close c1 drop", "tables")
+	case 31: // the application refuses to unsubscribe: resources/unsubscribe of a legacy session fails and the session stays subscribed; the clean-up of a 2026-07-28 stream ignores the refusal
+		ops = append(ops, "connect c0 1 legacy -", "connect c1 2 modern -", "subscribe c0 u0", "subscribe c1 u0", "policy u0 refuse", "unsubscribe c0 u0", "tables", "rupdated u0",
+			"unsubscribe c1 u0", "tables", "rupdated u0", "policy u0 accept", "unsubscribe c0 u0", "rupdated u0", "tables")
 	case 5: // capability inferred at listen time: nothing to list yet
 		ops = append(ops, "connect c0 1 modern tpr", "listen c0", "tables", "change prompts add", fmt.Sprintf("advance %d", d+1))
 		if hook == "hook1" {
@@ -2536,6 +2710,10 @@ func TestVerifNotify(t *testing.T) {
 				tags = append(tags, tag)
 			}
 			out.line(cs, op, obs, tags...)
+		}
+		if nfRootsIs(ops) {
+			nfRootsRunOps(t, emit, ops) // a client-side case (zz_verif_notifyroots_test.go)
+			return
 		}
 		i := 0
 		drained := false
@@ -2584,6 +2762,14 @@ func TestVerifNotify(t *testing.T) {
 	for v := 0; v < nfScriptedShapes; v++ {
 		runOps(fmt.Sprintf("s%d", v), nfScripted(verifRng(int64(v)), hookTok, v), "scripted")
 	}
+	// client side: the client's roots against every configuration of its roots capability
+	for i, cfg := range nfRootsConfigs {
+		runOps(fmt.Sprintf("rs%d", i), nfRootsScripted(cfg), "scripted")
+	}
+	for c, nr := 0, verifN(400, 6000); c < nr; c++ {
+		emit := func(op, obs string, tags ...string) { out.line(fmt.Sprintf("r%d", c), op, obs, tags...) }
+		nfRootsRun(t, emit, nfRootsGen(verifRng(int64(500000+c))))
+	}
 	n := verifN(3000, 40000)
 	for c := 0; c < n; c++ {
 		rng := verifRng(int64(1000 + c))
@@ -2631,7 +2817,7 @@ func nfDrain(w *nfWorld, state *bool) string {
 	}
 	w.mu.Unlock()
 	if cw := w.cancelWindows(); len(cw) > 0 {
-		return "canceldone " + cw[0]
+		return w.doneOp(cw[0])
 	}
 	// every callback has taken its snapshot: now the handlers held after their ack write go on
 	if wins := w.ackWindows(); len(wins) > 0 {
